@@ -178,9 +178,11 @@ class Lysosome:
             if not self.silent:
                 print(f"🗑️ [Lysosome] Ingested {waste.waste_type.value} from {waste.source}")
 
-            # Auto-digest if threshold reached
-            if len(self._queue) >= self.auto_digest_threshold:
-                self._auto_digest()
+            threshold_reached = len(self._queue) >= self.auto_digest_threshold
+
+        # Auto-digest if threshold reached (outside the lock: digest() takes it itself)
+        if threshold_reached:
+            self._auto_digest()
 
     def ingest_error(
         self,
